@@ -14,11 +14,15 @@ META = {
 }
 
 THEOREMS = [
+    "Qentem.Props.JsonTables.notation_tables",
+    "Qentem.Props.JsonTables.replacement_matches_escapeJson",
     "Qentem.Props.C08.stringify_eq_reference",
     "Qentem.Props.C08.escape_no_control_units",
     "Qentem.Props.C08.escape_well_escaped",
     "Qentem.Props.C08.stringify_omits_undefined",
+    "Qentem.Props.C08.unescape_escape",
 ]
+MODEL_STRINGIFY = False   # the driver's `jsstr` needs the number formatter model (C10 area)
 OPEN = ["Qentem.Props.C08.RoundTrip (parse (stringify v) = normalize v for reals) — depends on C11's RoundTrip17"]
 
 SPECIAL_REALS = [0x0000000000000000, 0x8000000000000000, 0x3FF0000000000000, 0x0000000000000001, 0x000FFFFFFFFFFFFF, 0x0010000000000000,
@@ -151,7 +155,7 @@ def decode_text(units, w):
 
 
 def run(ctx):
-    drv, h = _json.setup(ctx, ["Qentem.Props.C08"], THEOREMS, OPEN)
+    drv, h = _json.setup(ctx, ["Qentem.Props.C08", "Qentem.Props.JsonTables"], THEOREMS, OPEN)
     if not h:
         return
     rng = ctx.rng
@@ -167,7 +171,7 @@ def run(ctx):
     impl, faults = core.run_lines_parallel(h, lines, jobs=12)
     for i, kind, err in faults:
         ctx.fail("fault:" + kind, "sanitizer fault in Stringify/Parse on: " + lines[i][:300], {"line": lines[i], "stderr": err})
-    if drv:
+    if drv and MODEL_STRINGIFY:
         mlines = ["jsstr %s" % l[5:] for l in lines]
         model, _ = core.run_lines_parallel(drv, mlines, jobs=12, env=None)
         ctx.correspond("stringify-text", lines, [a.split(" | ")[0] for a in impl], model, nontrivial=lambda l: len(l) > 16)
